@@ -50,6 +50,7 @@ type hsgIdent struct {
 	acceptable bool                    // the documented trust rule accepts what this identity presents
 	adversary  bool                    // the adversary holds this identity's private key
 	victim     *hsgIdent               // for the key-mismatch kinds: whose certificate is abused
+	keyOf      *hsgIdent               // for the kinds that reuse another identity's static key pair: that identity
 }
 
 func (id *hsgIdent) versions() []cert.Version {
@@ -184,9 +185,9 @@ func hsgZooFor(curve cert.Curve) *hsgZoo {
 	_, stolen.priv = hsgKeypair(curve)
 	stolen.pub = a.pub // Credential takes the public half from the certificate
 	z.idents = append(z.idents, stolen)
-	foreign := &hsgIdent{idx: len(z.idents), name: "foreignA", kind: hsgForeignBody, certs: m.certs, body: a.body, priv: m.priv, pub: m.pub, adversary: true, victim: a}
+	foreign := &hsgIdent{idx: len(z.idents), name: "foreignA", kind: hsgForeignBody, certs: m.certs, body: a.body, priv: m.priv, pub: m.pub, adversary: true, victim: a, keyOf: m}
 	z.idents = append(z.idents, foreign)
-	full := &hsgIdent{idx: len(z.idents), name: "fullA", kind: hsgFullCert, certs: m.certs, body: map[cert.Version][]byte{}, priv: m.priv, pub: m.pub, adversary: true, victim: a}
+	full := &hsgIdent{idx: len(z.idents), name: "fullA", kind: hsgFullCert, certs: m.certs, body: map[cert.Version][]byte{}, priv: m.priv, pub: m.pub, adversary: true, victim: a, keyOf: m}
 	for v, c := range a.certs {
 		b, err := c.Marshal()
 		if err != nil {
